@@ -244,7 +244,7 @@ func TestC22(t *testing.T) {
 	vf.Check(t, vf.Prop[dgramCase]{
 		ID: "C22", Name: "decode-faithful",
 		Rule: "datagrams from the C20 generators (plus exhaustive lengths 0-2/0-3); those the decoder rejects are counted as label 'rejected' and not judged. Non-trivial = accepted datagram that uses the three-octet length form, has flag bits its type ignores, or whose length field disagrees with its size; distinct by bytes.",
-		Assumptions: []string{"where the length field disagrees with the datagram size both readings of 'the body' are accepted (to the end of the datagram, or to the announced length)"},
+		Assumptions: []string{"the body is everything after the actual header up to the end of the datagram, whatever the length field announces (the length field is the one allowed difference)"},
 		Exhaustive:  exhaustiveShort,
 		Gen:         func(t *rapid.T) dgramCase { return dgramCase{B: sngen.Datagram(t)} },
 		Run:         runC22,
@@ -279,10 +279,9 @@ func runC22(c dgramCase) (r vf.Result) {
 		return
 	}
 	// candidate bodies: to the end of the datagram; and to the announced length when that differs
+	// The body is what follows the actual header, to the end of the datagram: the statement allows
+	// the length field itself to differ, not the bytes it would cut off.
 	bodies := [][]byte{c.B[h.HeaderLen:]}
-	if h.Length != len(c.B) && h.Length >= h.HeaderLen && h.Length <= len(c.B) {
-		bodies = append(bodies, c.B[h.HeaderLen:h.Length])
-	}
 	var firstDiff string
 	ok := false
 	var matchedBody []byte
